@@ -19,6 +19,7 @@ package connsim
 
 import (
 	"bytes"
+	"errors"
 	"fmt"
 	"io"
 	"net"
@@ -41,7 +42,7 @@ import (
 
 type PktSpec struct{ ID, Size int }
 
-type InItem struct{ Kind, ID, Size int } // Kind 0 frame, 1 garbage (bad checksum), 2 EOF, 3 RST
+type InItem struct{ Kind, ID, Size int } // Kind 0 frame, 1 garbage (bad checksum), 2 EOF, 3 RST, 4 truncated frame then FIN, 5 header with an over-limit length
 
 type Dir struct{ Op, A, B int }
 
@@ -141,6 +142,9 @@ type Cfg struct {
 	Script     []Dir
 	CloseAfter int // free mode: 0 close when all senders returned; 1 close concurrently with senders
 	LateSend   int // after everything: number of extra SendPacket calls expected to be refused
+	FailAfter  int // >= 0: the connection's socket is wrapped; every Write after the first FailAfter ones fails (-1: plain TCP conn)
+	Immediate  int // free mode: Go(); SendPacket x N; Close() back to back on one goroutine, no settling, no perturbation
+	MaxProcs   int // free mode: run the scenario with GOMAXPROCS set to this (0: leave)
 }
 
 func (c Cfg) Sx() Sx {
@@ -167,7 +171,7 @@ func (c Cfg) Sx() Sx {
 	return List(Int(int64(c.Mode)), Int(int64(c.Codec)), Bool(c.Cipher), Int(int64(c.Ocap)), Int(int64(c.Icap)),
 		Int(int64(c.Ecap)), Bool(c.HasWriter), Bool(c.HasReader), ListOf(snd), ListOf(cls), ListOf(in),
 		Int(int64(c.PeerRead)), Int(int64(c.InConsumer)), Uint(c.Seed), ListOf(sc), Int(int64(c.CloseAfter)),
-		Int(int64(c.LateSend)))
+		Int(int64(c.LateSend)), Ints(int64(c.FailAfter), int64(c.Immediate), int64(c.MaxProcs)))
 }
 
 func CfgOfSx(s Sx) Cfg {
@@ -193,6 +197,11 @@ func CfgOfSx(s Sx) Cfg {
 		c.Script = append(c.Script, Dir{d.At(0).AsInt(), d.At(1).AsInt(), d.At(2).AsInt()})
 	}
 	c.CloseAfter, c.LateSend = s.At(15).AsInt(), s.At(16).AsInt()
+	c.FailAfter = -1
+	if s.Len() > 17 {
+		x := s.At(17)
+		c.FailAfter, c.Immediate, c.MaxProcs = x.At(0).AsInt(), x.At(1).AsInt(), x.At(2).AsInt()
+	}
 	return c
 }
 
@@ -256,6 +265,24 @@ func encodeFrame(enc codec.Encoder, withCipher bool, p PktSpec) []byte {
 	return buf.Bytes()
 }
 
+// failConn wraps the connection's socket: the first `ok` Write calls go through, every later one
+// fails without writing anything (an injected, deterministic write error).  It is deliberately
+// not a *net.TCPConn: TcpConn then closes it with Close() instead of CloseRead/CloseWrite.
+type failConn struct {
+	net.Conn
+	ok     int32
+	writes int32
+}
+
+var errInjected = errors.New("verif: injected write failure")
+
+func (c *failConn) Write(b []byte) (int, error) {
+	if atomic.AddInt32(&c.writes, 1) > c.ok {
+		return 0, errInjected
+	}
+	return c.Conn.Write(b)
+}
+
 // ---------------------------------------------------------------- threads, events, gates
 
 type event struct {
@@ -302,20 +329,26 @@ type Sim struct {
 	inputConsumed int32 // reader.frame / reader.err events
 	rdClosed      atomic.Bool
 
-	results     [][][2]int // per sender: (id, code)
-	closeRes    []int      // per closer: 0 not returned, 1 returned, 3 panicked
-	panics      int32
-	inconcl     []string
-	stuck       int
-	stuckWhat   string
-	delivered   []int // ids received on inbound from this connection (by whoever consumed)
-	badEndpoint int
-	foreignIn   int
-	errGot      int
-	errForeign  int
-	late        []int
-	closeBegan  atomic.Bool
-	rng         *Rng
+	results       [][][2]int // per sender: (id, code)
+	closeRes      []int      // per closer: 0 not returned, 1 returned, 3 panicked
+	panics        int32
+	inconcl       []string
+	stuck         int
+	stuckWhat     string
+	delivered     []int // ids received on inbound from this connection (by whoever consumed)
+	badEndpoint   int
+	foreignIn     int
+	errGot        int
+	errForeign    int
+	late          []int
+	closeBegan    atomic.Bool
+	current       int            // gated: ref of the thread released last (-1: environment step, -2: start-up)
+	parked        map[int64]bool // gated: goroutines parked inside connection code at the last quiescence
+	waited        bool           // finally() got past wg.Wait()
+	pumpAfterWait int            // pump events after that
+	noFin         int            // Terminated, no goroutine left, and the peer never saw end-of-stream
+	desync        int            // gated: arrivals that the serialization protocol cannot explain
+	rng           *Rng
 }
 
 func goid() int64 {
@@ -333,6 +366,21 @@ func (sim *Sim) register(ref int) *thread {
 	th := &thread{ref: ref, gid: goid(), gate: make(chan struct{}), rng: NewRng(sim.cfg.Seed*7919 + uint64(ref) + 1)}
 	sim.mu.Lock()
 	sim.thr[th.gid] = th
+	sim.byRef[ref] = th
+	sim.mu.Unlock()
+	return th
+}
+
+// rebind gives the calling goroutine a new thread identity (immediate scenarios: the same
+// goroutine first plays the sender, then the closer)
+func (sim *Sim) rebind(ref int) *thread {
+	gid := goid()
+	th := &thread{ref: ref, gid: gid, gate: make(chan struct{}), rng: NewRng(sim.cfg.Seed*7919 + uint64(ref) + 1)}
+	sim.mu.Lock()
+	if old := sim.thr[gid]; old != nil {
+		old.finished = true
+	}
+	sim.thr[gid] = th
 	sim.byRef[ref] = th
 	sim.mu.Unlock()
 	return th
@@ -363,12 +411,27 @@ func (sim *Sim) point(code, arg int) {
 	gid := goid()
 	sim.mu.Lock()
 	th := sim.thr[gid]
+	isNew := false
 	if th == nil {
 		th = sim.adopt(gid, code)
+		isNew = true
+	}
+	if sim.gated.Load() && sim.current != -2 && !isNew && th.ref != sim.current && !sim.parked[gid] {
+		// neither the released thread nor one that was parked in connection code: two
+		// goroutines ran at the same time, the arrival order is not a linearisation
+		sim.desync++
 	}
 	sim.seq++
 	sim.evs = append(sim.evs, event{sim.seq, th.ref, code, arg})
 	th.last = code
+	if code == PFinallyWaited {
+		sim.waited = true
+	}
+	if sim.waited && (code == PReaderFrame || code == PReaderErr || code == PReaderLoop || code == PReaderDelivered ||
+		code == PWriterDeq || code == PFlushDeq || code == PWriterSawDone) {
+		// a pump is still working although wg.Wait() in finally() has returned
+		sim.pumpAfterWait++
+	}
 	if code == PReaderFrame || code == PReaderErr {
 		atomic.AddInt32(&sim.inputConsumed, 1)
 	}
@@ -385,7 +448,7 @@ func (sim *Sim) point(code, arg int) {
 	sim.mu.Unlock()
 	if gated {
 		<-th.gate
-	} else if sim.cfg.Mode == 0 {
+	} else if sim.cfg.Mode == 0 && sim.cfg.Immediate == 0 {
 		// seeded random perturbation of the schedule
 		switch th.rng.Intn(8) {
 		case 0:
@@ -408,6 +471,7 @@ func (sim *Sim) hook(t *qnet.TcpConn, name string) {
 // release lets a gated thread run its next step
 func (sim *Sim) release(th *thread) {
 	sim.mu.Lock()
+	sim.current = th.ref
 	th.atGate = false
 	sim.mu.Unlock()
 	th.gate <- struct{}{}
@@ -488,12 +552,39 @@ func isParked(status string) bool {
 	return false
 }
 
+// parkedInConn: the innermost frame that is not runtime / standard library / codec code belongs
+// to the connection (qnet.(*TcpConn).xxx): the goroutine is parked by an operation of the
+// connection's own code (channel op, wg.Wait, socket read/write), not by something incidental
+// (a runtime semaphore during GC or a stack dump, a harness mutex ...).
+func parkedInConn(text string) bool {
+	lines := strings.Split(text, "\n")
+	for _, ln := range lines[1:] {
+		if ln == "" || ln[0] == '\t' || strings.HasPrefix(ln, "created by") {
+			continue
+		}
+		skip := false
+		for _, pre := range []string{"runtime.", "sync.", "sync/atomic.", "internal/", "net.", "bufio.", "io.", "time.", "os.", "syscall.",
+			"qchen.fun/fatchoy/codec.", "encoding/"} {
+			if strings.HasPrefix(ln, pre) {
+				skip = true
+				break
+			}
+		}
+		if skip {
+			continue
+		}
+		return strings.HasPrefix(ln, "qchen.fun/fatchoy/qnet.")
+	}
+	return false
+}
+
 // quiet reports whether every goroutine that touches the connection is at a gate or
 // parked in a blocking operation that only another step can complete.
 func (sim *Sim) quiet() (bool, string) {
 	gs := allStacks()
 	sim.mu.Lock()
 	defer sim.mu.Unlock()
+	parked := map[int64]bool{}
 	for _, g := range gs {
 		th := sim.thr[g.gid]
 		relevant := th != nil || strings.Contains(g.text, "qnet.(*TcpConn)")
@@ -503,22 +594,22 @@ func (sim *Sim) quiet() (bool, string) {
 		if th != nil && (th.atGate || th.finished) {
 			continue
 		}
-		if !isParked(g.status) {
+		if !isParked(g.status) || !parkedInConn(g.text) {
 			return false, fmt.Sprintf("g%d %s", g.gid, g.status)
-		}
-		if strings.Contains(g.text, "connsim.(*Sim).point") || strings.Contains(g.text, "connsim.(*Sim).register") {
-			return false, fmt.Sprintf("g%d inside the hook", g.gid) // about to arrive at its gate
 		}
 		if g.status == "IO wait" {
 			if strings.Contains(g.text, "(*TcpConn).readPump") {
 				if atomic.LoadInt32(&sim.inputWritten) > atomic.LoadInt32(&sim.inputConsumed) || sim.rdClosed.Load() {
 					return false, "reader about to wake"
 				}
+				parked[g.gid] = true
 				continue
 			}
 			return false, fmt.Sprintf("g%d in network wait", g.gid)
 		}
+		parked[g.gid] = true
 	}
+	sim.parked = parked
 	return true, ""
 }
 
@@ -672,6 +763,7 @@ func (sim *Sim) peerReader(slowUs int) {
 // environment operations (performed by the driver goroutine; logged as events of thread TEnv)
 func (sim *Sim) envEvent(code, arg int) {
 	sim.mu.Lock()
+	sim.current = -1
 	sim.seq++
 	sim.evs = append(sim.evs, event{sim.seq, TEnv * 1000, code, arg})
 	sim.mu.Unlock()
@@ -691,6 +783,18 @@ func (sim *Sim) peerWriteItem(idx int, enc codec.Encoder) bool {
 		sim.peer.Write(f)
 	case 2:
 		sim.peer.CloseWrite()
+	case 4:
+		f := encodeFrame(enc, false, PktSpec{it.ID, it.Size + 8})
+		sim.peer.Write(f[:len(f)-3])
+		sim.peer.CloseWrite()
+	case 5:
+		f := encodeFrame(enc, false, PktSpec{it.ID, it.Size})
+		if sim.cfg.Codec == 2 {
+			f[0], f[1], f[2] = 0xff, 0xff, 0xff
+		} else {
+			f[0], f[1] = 0xff, 0xff
+		}
+		sim.peer.Write(f)
 	case 3:
 		sim.peer.SetLinger(0)
 		sim.peer.Close()
@@ -771,9 +875,19 @@ func (foreignErr) Error() string { return "foreign" }
 // Run executes one scenario and returns what was observed, plus human-readable notes
 // (inconclusive observations, stuck-state evidence).
 func Run(cfg Cfg) (Sx, []string) {
+	if cfg.Mode == 0 && cfg.MaxProcs > 0 {
+		defer runtime.GOMAXPROCS(runtime.GOMAXPROCS(cfg.MaxProcs))
+	}
 	sx, sim := run(cfg)
+	for try := 0; sim == nil && try < 3; try++ {
+		time.Sleep(200 * time.Millisecond)
+		sx, sim = run(cfg)
+	}
 	if sim == nil {
-		return sx, []string{"setup failed"}
+		// could not even set up a loopback connection: a well-formed, inconclusive observation
+		e := ListOf(nil)
+		return List(e, e, e, e, e, Ints(0, 0, 0, 0), Ints(0, 0, 0, 0), e, Ints(0, 0), Ints(0, 0), e, Ints(0, 0, 0), Ints(1, 0, 0), e),
+			[]string{"setup failed: no loopback connection"}
 	}
 	var notes []string
 	notes = append(notes, sim.inconcl...)
@@ -784,7 +898,7 @@ func Run(cfg Cfg) (Sx, []string) {
 }
 
 func run(cfg Cfg) (Sx, *Sim) {
-	sim := &Sim{cfg: cfg, thr: map[int64]*thread{}, byRef: map[int]*thread{}, rng: NewRng(cfg.Seed)}
+	sim := &Sim{cfg: cfg, thr: map[int64]*thread{}, byRef: map[int]*thread{}, rng: NewRng(cfg.Seed), current: -2, parked: map[int64]bool{}}
 	sim.results = make([][][2]int, len(cfg.Senders))
 	sim.closeRes = make([]int, len(cfg.Closers))
 	enc := encoder(cfg.Codec)
@@ -826,15 +940,23 @@ func run(cfg Cfg) (Sx, *Sim) {
 		return List(Int(-1)), nil
 	}
 	sim.peer = pc.(*net.TCPConn)
-	defer sim.peer.Close()
 	srv := a.c.(*net.TCPConn)
-	defer srv.Close()
+	defer func() { // no TIME_WAIT pile-up: thousands of scenarios per run
+		sim.peer.SetLinger(0)
+		sim.peer.Close()
+		srv.SetLinger(0)
+		srv.Close()
+	}()
 
 	sim.inbound = make(chan fatchoy.IPacket, cfg.Icap)
 	if cfg.Ecap >= 0 {
 		sim.errch = make(chan error, cfg.Ecap)
 	}
-	sim.conn = qnet.NewTcpConn(fatchoy.NodeID(0x010001), srv, enc, sim.errch, sim.inbound, cfg.Ocap, nil)
+	var sock net.Conn = srv
+	if cfg.FailAfter >= 0 {
+		sock = &failConn{Conn: srv, ok: int32(cfg.FailAfter)}
+	}
+	sim.conn = qnet.NewTcpConn(fatchoy.NodeID(0x010001), sock, enc, sim.errch, sim.inbound, cfg.Ocap, nil)
 	if cfg.Cipher {
 		sim.conn.SetEncryptPair(newCryptor(), newCryptor())
 	}
@@ -854,11 +976,17 @@ func run(cfg Cfg) (Sx, *Sim) {
 	}
 
 	// ---- collect
-	// wait for the peer to see the end of the stream (bounded); a time-out is inconclusive
+	// wait for the peer to see the end of the stream (bounded).  A time-out is inconclusive,
+	// unless nothing is left that could still send the FIN: the connection is Terminated and
+	// none of its goroutines is alive (then the write side was never shut down).
 	select {
 	case <-sim.peerDone:
 	case <-time.After(4 * time.Second):
-		sim.inconclusive("peer did not observe end-of-stream within 4s")
+		if sim.conn.VerifState() == 4 && !sim.pumpsAlive() {
+			sim.noFin = 1
+		} else {
+			sim.inconclusive("peer did not observe end-of-stream within 4s")
+		}
 		sim.peer.SetReadDeadline(time.Now())
 		<-sim.peerDone
 	}
@@ -957,15 +1085,15 @@ func (sim *Sim) observed(enc codec.Encoder, oracle, inOracle []Sx) Sx {
 		ListOf(evs),      // 2 events in arrival order
 		ListOf(res),      // 3 per-sender results
 		ListOf(wire),     // 4 what the peer received (id n bodyok)
-		Ints(int64(garbage), b2i(sim.peerEOF.Load()), b2i(sim.peerErr.Load())), // 5
+		Ints(int64(garbage), b2i(sim.peerEOF.Load()), b2i(sim.peerErr.Load()), int64(sim.noFin)), // 5
 		counters,       // 6
 		Ints(deliv...), // 7
 		Ints(int64(sim.badEndpoint), int64(sim.foreignIn)), // 8
 		Ints(int64(sim.errGot), int64(sim.errForeign)),     // 9
 		Ints(cres...), // 10
 		Ints(int64(atomic.LoadInt32(&sim.panics)), int64(sim.conn.VerifState()), b2i(sim.conn.VerifDoneClosed())), // 11
-		Ints(int64(ninc), int64(sim.stuck)), // 12 inconclusive observations, stuck state established
-		Ints(late...),                       // 13
+		Ints(int64(ninc), int64(sim.stuck), int64(sim.pumpAfterWait)),                                             // 12 inconclusive observations, stuck state established, pump events after wg.Wait returned
+		Ints(late...), // 13
 	)
 }
 
